@@ -102,7 +102,7 @@ Fixpoint sp_walk (fuel : nat) (p : bytes) (hl : nat) (consumed : nat) : option (
   end.
 
 (* SubPackets.parse after the F13 repair: the hashed area is kept verbatim and must end exactly
-   at its declared length *)
+   at its declared length; after repair 88a5e9e the unhashed area must end exactly at its declared length too *)
 Record subpackets := { sp_hashed_raw : bytes; sp_hashed : list (Z * bool * bytes); sp_unhashed : list (Z * bool * bytes) }.
 
 Definition subpackets_parse (p : bytes) : option (subpackets * bytes) :=
@@ -117,7 +117,10 @@ Definition subpackets_parse (p : bytes) : option (subpackets * bytes) :=
     let p3 := skipn 2 p2 in
     match sp_walk (S (length p3)) p3 uhl 0 with
     | None => None
-    | Some (us, p4, _) => Some ({| sp_hashed_raw := raw; sp_hashed := hs; sp_unhashed := us |}, p4)
+    | Some (us, p4, tot2) =>
+      (* repair 88a5e9e: the unhashed area too must end exactly at its declared length *)
+      if negb (tot2 =? uhl)%nat then None else
+      Some ({| sp_hashed_raw := raw; sp_hashed := hs; sp_unhashed := us |}, p4)
     end
   end.
 
